@@ -47,7 +47,7 @@ def check(prog, res, tier):
                                           f'(outcome: {p.outcome} {p.value!r})'))
                 return fails
             u, ue = unpacked_length(p)
-            if len(reads) >= 2 and u is not None:
+            if len(reads) >= 2 and u is not None and isinstance(reads[1][1], SeqV):
                 rec = reads[1][1]
                 short_rec = st.prove_ge0(u.lin - rec.length() - 1)
                 if short_rec and not (p.outcome == 'raise' and exc_key(p.value.cls) == MLIB):
